@@ -23,6 +23,9 @@ func cfgOnePerMsg(members int, joiner bool) Cfg {
 	return Cfg{Name: "raftexample with MaxSizePerMsg=0 (one entry per MsgApp)", ElectionTick: 1 << 30, MaxSizePerMsg: 0, Members: members, Joiner: joiner}
 }
 
+// Sizes below were measured on this machine (16 workers, other jobs running): quick explores
+// about 3.4 M states in 35-65 s, thorough about 45 M states in 10-13 min. Every box stops at
+// its share of the internal time budget and reports the bound it completed.
 func makeBoxes(tier string) []*Box {
 	thorough := tier == "thorough"
 	pick := func(q, t int) int {
@@ -32,72 +35,66 @@ func makeBoxes(tier string) []*Box {
 		return q
 	}
 	var bs []*Box
-	// ---- Box A: every interleaving, tiny budgets
-	bs = append(bs, &Box{
-		ID: "A1", Mode: "A", What: "every interleaving of up to two elections and one replication round with one message loss",
-		Cfg:   cfgPlain(3, false),
-		Bud:   Budget{MaxTerm: 3, Proposals: 1, Drops: 1},
-		Depth: pick(10, 13), Kinds: kinds(evCampaign, evPropose), Share: pick(10, 12),
-	})
-	bs = append(bs, &Box{
-		ID: "A2", Mode: "A", What: "same with PreVote+CheckQuorum: pre-vote rounds, leases and their expiry, quorum checks on leader ticks",
-		Cfg:   cfgPVCQ(3, false),
-		Bud:   Budget{MaxTerm: 3, Proposals: 1, Drops: 1, Heartbeats: 2, Expires: 2},
-		Depth: pick(9, 11), Kinds: kinds(evCampaign, evPropose, evHeartbeat, evExpire), Share: pick(8, 10),
-	})
+	add := func(b *Box) { bs = append(bs, b) }
+	all3 := cfgPlain(3, false)
+
+	// ---- Box A: every interleaving, tiny budgets (breadth-first, pool = multiset)
+	add(&Box{ID: "A1", Mode: "A", What: "every interleaving of up to two elections and one replication round with one message loss",
+		Cfg: all3, Bud: Budget{MaxTerm: 3, Proposals: 1, Drops: 1},
+		Depth: pick(10, 12), Kinds: kinds(evCampaign, evPropose), Share: pick(10, 60)})
+	add(&Box{ID: "A2", Mode: "A", What: "same with PreVote+CheckQuorum: pre-vote rounds, leases and their expiry, quorum checks on leader ticks",
+		Cfg: cfgPVCQ(3, false), Bud: Budget{MaxTerm: 3, Proposals: 1, Drops: 1, Heartbeats: 2, Expires: 2},
+		Depth: pick(9, 10), Kinds: kinds(evCampaign, evPropose, evHeartbeat, evExpire), Share: pick(8, 35)})
+
 	// ---- Box B: deep runs, FIFO delivery by default, bounded number of deviations
-	bs = append(bs, &Box{
-		ID: "B2", Mode: "B", What: "elections, proposals, crash and restart from persisted state; loss, duplication, reordering, untimely campaign/propose/crash as deviations",
-		Cfg:   cfgPlain(3, false),
-		Bud:   Budget{MaxTerm: 4, Proposals: pick(1, 2), Drops: 9, Dups: 9, Crashes: 1, Heartbeats: pick(0, 1)},
-		Depth: 400, MaxDev: pick(1, 2), Kinds: kinds(evCampaign, evPropose, evHeartbeat, evCrash, evRestart), Share: pick(14, 18),
-	})
-	bs = append(bs, &Box{
-		ID: "B3", Mode: "B", What: "log compaction at the applied index and snapshot transfer to lagging / restarted followers",
-		Cfg:   cfgPlain(3, false),
-		Bud:   Budget{MaxTerm: 3, Proposals: pick(1, 2), Drops: 9, Dups: 9, Crashes: 1, Compacts: pick(1, 2)},
-		Depth: 400, MaxDev: pick(1, 2), Kinds: kinds(evCampaign, evPropose, evCrash, evRestart, evCompact), Share: pick(12, 12),
-	})
-	bs = append(bs, &Box{
-		ID: "B4", Mode: "B", What: "membership changes: add node 4 as voter or as learner then promote, remove node 3 (also while it leads), joint consensus with automatic and explicit leave",
-		Cfg:   cfgPlain(3, true),
-		Bud:   Budget{MaxTerm: 3, Proposals: pick(0, 1), Drops: 9, Dups: 9, ConfChanges: 2, Crashes: pick(0, 1)},
-		Depth: 400, MaxDev: pick(1, 2), Kinds: kinds(evCampaign, evPropose, evConf, evCrash, evRestart), Share: pick(10, 14),
-	})
-	bs = append(bs, &Box{
-		ID: "B5", Mode: "B", What: "PreVote+CheckQuorum deep runs: lease expiry, quorum-check step-down, crash/restart",
-		Cfg:   cfgPVCQ(3, false),
-		Bud:   Budget{MaxTerm: 3, Proposals: 1, Drops: 9, Dups: 9, Crashes: pick(0, 1), Heartbeats: 2, Expires: pick(1, 2)},
-		Depth: 400, MaxDev: pick(1, 2), Kinds: kinds(evCampaign, evPropose, evHeartbeat, evCrash, evRestart, evExpire), Share: pick(12, 10),
-	})
-	bs = append(bs, &Box{
-		ID: "B6", Mode: "B", What: "leadership transfer (MsgTimeoutNow, forced campaign) interleaved with elections and proposals",
-		Cfg:   cfgPlain(3, false),
-		Bud:   Budget{MaxTerm: 4, Proposals: 1, Drops: 9, Dups: 9, Transfers: pick(1, 2)},
-		Depth: 400, MaxDev: pick(1, 2), Kinds: kinds(evCampaign, evPropose, evTransfer), Share: pick(4, 5),
-	})
-	// B1 runs after the cheaper boxes so that it inherits whatever time they left
-	bs = append(bs, &Box{
-		ID: "B1", Mode: "B", What: "network partitions with one entry per MsgApp (MaxSizePerMsg=0): leaders cut off right after election or after appending, stale leaders, entries of earlier terms acknowledged separately from the leader's own (Figure-8 family)",
-		Cfg:   cfgOnePerMsg(3, false),
-		Bud:   Budget{MaxTerm: 4, Proposals: 1, Drops: pick(0, 9)},
-		Depth: 400, MaxDev: pick(1, 2), Kinds: kinds(evCampaign, evPropose, evIsolate), Devs: kinds(evIsolate, evDrop), LeaderPropose: true,
-		Share: pick(24, 22),
-	})
+	crashy := kinds(evCampaign, evPropose, evHeartbeat, evCrash, evRestart)
+	add(&Box{ID: "B2", Mode: "B", What: "elections, proposals, crash and restart from persisted state; loss, duplication, reordering, untimely campaign/propose/crash/restart as deviations",
+		Cfg: all3, Bud: Budget{MaxTerm: 4, Proposals: 1, Drops: 9, Dups: 9, Crashes: 1},
+		Depth: 400, MaxDev: pick(1, 2), Kinds: crashy, Share: pick(14, 80)})
 	if thorough {
-		bs = append(bs, &Box{
-			ID: "B7", Mode: "B", What: "crash-heavy runs with one entry per MsgApp: up to three crashes, restarts from persisted state",
-			Cfg:   cfgOnePerMsg(3, false),
-			Bud:   Budget{MaxTerm: 5, Proposals: 1, Drops: 9, Crashes: 3},
-			Depth: 400, MaxDev: 1, Kinds: kinds(evCampaign, evPropose, evCrash, evRestart), Devs: kinds(evDrop, evCrash, evDeliver), Share: 10,
-		})
-		bs = append(bs, &Box{
-			ID: "B8", Mode: "B", What: "five members",
-			Cfg:   cfgPlain(5, false),
-			Bud:   Budget{MaxTerm: 3, Proposals: 1, Drops: 9, Dups: 9, Crashes: 1},
-			Depth: 400, MaxDev: 2, Kinds: kinds(evCampaign, evPropose, evCrash, evRestart), Share: 8,
-		})
+		add(&Box{ID: "B2b", Mode: "B", What: "as B2 with two proposals and a leader heartbeat tick",
+			Cfg: all3, Bud: Budget{MaxTerm: 4, Proposals: 2, Drops: 9, Dups: 9, Crashes: 1, Heartbeats: 1},
+			Depth: 400, MaxDev: 1, Kinds: crashy, Share: 40})
+		add(&Box{ID: "B3a", Mode: "B", What: "log compaction at the applied index and snapshot transfer, two proposals",
+			Cfg: all3, Bud: Budget{MaxTerm: 3, Proposals: 2, Drops: 9, Dups: 9, Crashes: 1, Compacts: 1},
+			Depth: 400, MaxDev: 1, Kinds: kinds(evCampaign, evPropose, evCrash, evRestart, evCompact), Share: 30})
 	}
+	add(&Box{ID: "B3", Mode: "B", What: "log compaction at the applied index and snapshot transfer to lagging / restarted followers",
+		Cfg: all3, Bud: Budget{MaxTerm: 3, Proposals: 1, Drops: 9, Dups: 9, Crashes: 1, Compacts: 1},
+		Depth: 400, MaxDev: pick(1, 2), Kinds: kinds(evCampaign, evPropose, evCrash, evRestart, evCompact), Share: pick(12, 100)})
+	add(&Box{ID: "B4", Mode: "B", What: "membership changes: add node 4 as voter or as learner then promote, remove node 3 (also while it leads), joint consensus with automatic and explicit leave; two changes per run",
+		Cfg: cfgPlain(3, true), Bud: Budget{MaxTerm: 3, Drops: 9, Dups: 9, ConfChanges: 2},
+		Depth: 400, MaxDev: pick(1, 2), Kinds: kinds(evCampaign, evConf), Share: pick(10, 95)})
+	if thorough {
+		add(&Box{ID: "B4b", Mode: "B", What: "membership changes interleaved with a proposal",
+			Cfg: cfgPlain(3, true), Bud: Budget{MaxTerm: 3, Proposals: 1, Drops: 9, Dups: 9, ConfChanges: 2},
+			Depth: 400, MaxDev: 1, Kinds: kinds(evCampaign, evPropose, evConf), Share: 30})
+		add(&Box{ID: "B4c", Mode: "B", What: "membership changes with a crash and restart (configuration rebuilt from snapshot + log)",
+			Cfg: cfgPlain(3, true), Bud: Budget{MaxTerm: 3, Drops: 9, Dups: 9, ConfChanges: 2, Crashes: 1},
+			Depth: 400, MaxDev: 1, Kinds: kinds(evCampaign, evConf, evCrash, evRestart), Share: 65})
+		add(&Box{ID: "B5a", Mode: "B", What: "PreVote+CheckQuorum with crash/restart",
+			Cfg: cfgPVCQ(3, false), Bud: Budget{MaxTerm: 3, Proposals: 1, Drops: 9, Dups: 9, Crashes: 1, Heartbeats: 2, Expires: 1},
+			Depth: 400, MaxDev: 1, Kinds: kinds(evCampaign, evPropose, evHeartbeat, evCrash, evRestart, evExpire), Share: 50})
+	}
+	add(&Box{ID: "B5", Mode: "B", What: "PreVote+CheckQuorum deep runs: lease expiry, quorum-check step-down on leader ticks",
+		Cfg: cfgPVCQ(3, false), Bud: Budget{MaxTerm: 3, Proposals: 1, Drops: 9, Dups: 9, Heartbeats: 2, Expires: 1},
+		Depth: 400, MaxDev: pick(1, 2), Kinds: kinds(evCampaign, evPropose, evHeartbeat, evExpire), Share: pick(6, 35)})
+	add(&Box{ID: "B6", Mode: "B", What: "leadership transfer (MsgTimeoutNow, forced campaign) interleaved with elections and a proposal",
+		Cfg: all3, Bud: Budget{MaxTerm: 4, Proposals: 1, Drops: 9, Dups: 9, Transfers: 1},
+		Depth: 400, MaxDev: pick(1, 2), Kinds: kinds(evCampaign, evPropose, evTransfer), Share: pick(5, 40)})
+	if thorough {
+		add(&Box{ID: "B7", Mode: "B", What: "one entry per MsgApp with two crashes: restarts from persisted state while entries of several terms are in the logs",
+			Cfg: cfgOnePerMsg(3, false), Bud: Budget{MaxTerm: 4, Proposals: 1, Drops: 9, Crashes: 2},
+			Depth: 400, MaxDev: 1, Kinds: kinds(evCampaign, evPropose, evCrash, evRestart), Devs: kinds(evDrop, evCrash, evDeliver), Share: 30})
+		add(&Box{ID: "B8", Mode: "B", What: "five members",
+			Cfg: cfgPlain(5, false), Bud: Budget{MaxTerm: 3, Proposals: 1, Drops: 9, Dups: 9},
+			Depth: 400, MaxDev: 2, Kinds: kinds(evCampaign, evPropose), Share: 70})
+	}
+	// B1 runs last so that it inherits whatever time the cheaper boxes left
+	add(&Box{ID: "B1", Mode: "B", What: "network partitions with one entry per MsgApp (MaxSizePerMsg=0): leaders cut off right after election or after appending, stale leaders, entries of earlier terms acknowledged separately from the leader's own (Figure-8 family)",
+		Cfg: cfgOnePerMsg(3, false), Bud: Budget{MaxTerm: 4, Proposals: 1, Drops: pick(0, 9)},
+		Depth: 400, MaxDev: pick(1, 2), Kinds: kinds(evCampaign, evPropose, evIsolate), Devs: kinds(evIsolate, evDrop), LeaderPropose: true,
+		Share: pick(25, 180)})
 	if tj := os.Getenv("RAFTMC_TRIAL"); tj != "" {
 		// development aid: a box given as JSON, e.g.
 		// {"mode":"B","cfg":"plain","members":3,"joiner":false,"budgets":{...},"max_deviations":1,"kinds":"CPHKRS"}
